@@ -1,6 +1,7 @@
 package main
 
 import (
+	"encoding/json"
 	"flag"
 	"fmt"
 	"go/types"
@@ -207,6 +208,7 @@ func run(cfg runConfig) (*runResult, error) {
 	e := newEngine(lr, db)
 	e.tier = cfg.tier
 	e.repoDir = cfg.repo
+	e.localsBase = loadLocalsBaseline(cfg.specDir)
 	if err := e.initGlobals(lr.order); err != nil {
 		return nil, err
 	}
@@ -585,6 +587,8 @@ func main() {
 		os.Exit(cmdCheck(os.Args[2:]))
 	case "dump":
 		os.Exit(cmdDump(os.Args[2:]))
+	case "baseline":
+		os.Exit(cmdBaseline(os.Args[2:]))
 	default:
 		fmt.Fprintln(os.Stderr, "unknown command", os.Args[1])
 		os.Exit(2)
@@ -874,4 +878,42 @@ func leanCheck(specDir string) (bool, string) {
 	leanResult.ok = true
 	leanResult.detail = fmt.Sprintf("lean spec/Lemmas.lean: no errors, no sorry (%.0f s)", time.Since(start).Seconds())
 	return true, leanResult.detail
+}
+
+// cmdBaseline writes spec/locals.baseline.json: definition signatures of the named locals of every contracted
+// function of the (unchanged) tree.
+func cmdBaseline(args []string) int {
+	fs := flag.NewFlagSet("baseline", flag.ExitOnError)
+	repo := fs.String("repo", "/repo", "repository")
+	specDir := fs.String("spec", "/verif/spec", "spec directory")
+	tags := fs.String("tags", "verif,purego", "build tags")
+	_ = fs.Parse(args)
+	lr, err := loadRepo(*repo, *tags)
+	if err != nil {
+		fmt.Fprintln(os.Stderr, err)
+		return 2
+	}
+	db, err := loadSpecs(*repo, modPath, *specDir)
+	if err != nil {
+		fmt.Fprintln(os.Stderr, err)
+		return 2
+	}
+	fns := allFunctions(lr)
+	out := localsBaseline{}
+	for k := range db.Contracts {
+		fn, ok := fns[k]
+		if !ok || fn.Blocks == nil || !strings.HasPrefix(k, modPath) {
+			continue
+		}
+		if s := localSigs(fn); len(s) > 0 {
+			out[k] = s
+		}
+	}
+	data, _ := json.MarshalIndent(out, "", " ")
+	if err := os.WriteFile(filepath.Join(*specDir, "locals.baseline.json"), append(data, '\n'), 0o644); err != nil {
+		fmt.Fprintln(os.Stderr, err)
+		return 2
+	}
+	fmt.Printf("baseline: %d functions\n", len(out))
+	return 0
 }
